@@ -24,9 +24,11 @@ EXPLANATION = (
 R_MAIN = "E9.main-exit"
 
 # floors: numbers counted on the pinned tree
-FLOOR_BODIES = 800
-FLOOR_SOURCES = 40
-FLOOR_LOOPS = 35
+# floors: about three quarters of the numbers counted on the pinned tree (they guard against a vacuous
+# enumeration, not against a refactoring that removes a few sites)
+FLOOR_BODIES = 600
+FLOOR_SOURCES = 30
+FLOOR_LOOPS = 26
 
 
 def check_main_exit(P, chk):
@@ -45,7 +47,7 @@ def run(P, chk, tier):
     loops = S.loops(bodies)
     chk.floor("natural loops", len(loops), FLOOR_LOOPS)
     nscc = S.sccs(bodies)
-    chk.floor("recursion cycles", nscc, 4)
+    chk.floor("recursion cycles", nscc, 3)
     S.finish()
     spans.check(P, chk)
     check_main_exit(P, chk)
